@@ -129,7 +129,7 @@ def run(ctx: Ctx) -> None:
                 for partial in (False, True):
                     inst_list = [Tok(f"arg{k}", __class__=argkind, ty=Tok(f"ty{k}"), const=Tok(f"const{k}")) for k in range(ninst)]
                     var = Tok("var", idx=i, display_name="T", copyable=True, droppable=False, ty=Tok("cty"))
-                    self_tok = Tok("self", inst=inst_list, allow_partial=partial)
+                    self_tok = Tok("self", inst=inst_list, allow_partial=partial, __classes__=inst.mro())
                     made.clear()
                     n += 1
                     try:
@@ -148,7 +148,7 @@ def run(ctx: Ctx) -> None:
                         inst2[i] = None
                         n += 1
                         try:
-                            out2 = ev.run(f.node.body, {ps[0]: Tok("self", inst=inst2, allow_partial=True), ps[1]: var, vkind: mk})
+                            out2 = ev.run(f.node.body, {ps[0]: Tok("self", inst=inst2, allow_partial=True, __classes__=inst.mro()), ps[1]: var, vkind: mk})
                         except (Unsupported, Raised) as e:
                             und = str(e)
                             break
